@@ -127,7 +127,7 @@ def convection(
     # Calculate the thermal boundary layer thickness and then check for over/under shoots
     boundary_layer_thickness = layer_thickness / nusselt
     boundary_layer_thickness = (delta_temp_shape > float_eps) * boundary_layer_thickness + \
-                               (delta_temp_shape <= float_eps) * 1.
+                               (delta_temp_shape <= float_eps) * (layer_thickness / 2.)
     boundary_layer_thickness = (layer_thickness_shape > MIN_THICKNESS) * boundary_layer_thickness + \
                                (layer_thickness_shape <= MIN_THICKNESS) * layer_thickness
 
